@@ -101,6 +101,20 @@ func judgeC08(rep *lib.Report, c *lib.Ctx, ln *printerLine, res *realResult, kas
 		rep.Violate("compose:not-identity", fmt.Sprintf("%s: output %q, the redactables unchanged would give %q", desc, res.Out, exp), kase)
 		return
 	}
+	// "not reformatted": the relation above compares two runs of the same code, so a decoration added to redactables and
+	// to their placeholders alike passes it.  Absolutely: no verb puts quotation marks around a redactable's content
+	// (Go-syntax printing of the containers around it names types and fields, the redactable itself stays as it is).
+	for _, content := range contents {
+		if len(content) == 0 || content[0] == '"' || content[0] == '`' || content[len(content)-1] == '"' || content[len(content)-1] == '`' {
+			continue
+		}
+		for _, q := range []string{"\"", "`"} {
+			if bytes.Contains(res.Out, append([]byte(q), content...)) || bytes.Contains(res.Out, append(append([]byte{}, content...), q...)) {
+				rep.Violate("compose:reformatted", fmt.Sprintf("%s: output %q puts a quotation mark next to the redactable %q", desc, res.Out, content), kase)
+				return
+			}
+		}
+	}
 	if got := []byte(redact.RedactableBytes(res.Out).Redact()); !bytes.Equal(got, expRed) {
 		rep.Violate("compose:redact-distributes", fmt.Sprintf("%s: Redact gives %q, piecewise %q", desc, got, expRed), kase)
 	}
